@@ -48,7 +48,8 @@ extern int64_t mpt_stream_seek(MPT_STRUCT(stream) *stream, int64_t pos, int mode
 			return MPT_ERROR(BadArgument);
 		}
 		qu = &stream->_rd.data;
-		if (mode == SEEK_CUR && (flags & MPT_STREAMFLAG(ReadBuf))) {
+		/* data already loaded from file is ahead of stream position */
+		if (mode == SEEK_CUR) {
 			pos -= qu->len;
 			add = qu->off;
 		}
